@@ -138,7 +138,8 @@ pub fn junk_ack_bytes() -> BoxedStrategy<Vec<u8>> {
 }
 
 pub fn cfg_strategy(p: Profile, thorough: bool) -> BoxedStrategy<Cfg> {
-    let inner = cfg_strategy_inner(p, thorough);
+    // a second relationship type in half of the configurations that have hierarchies
+    let inner = (cfg_strategy_inner(p, thorough), any::<bool>()).prop_map(move |(c, o)| Cfg { owners: (o || matches!(p, Profile::Related)) && c.children, ..c }).boxed();
     if matches!(p, Profile::Events | Profile::Events3 | Profile::Sessions | Profile::Auth | Profile::Lossy | Profile::Split | Profile::Tracked) {
         (inner, varint_edge_start()).prop_map(|(c, st)| if c.policy == 0 { Cfg { start_tick: st, ..c } } else { c }).boxed()
     } else {
@@ -325,7 +326,7 @@ pub fn step_strategy(cfg: &Cfg, p: Profile) -> BoxedStrategy<Step> {
     };
     let w = |on: bool, w: u32| if on { w } else { 0 };
     let mut v: Vec<(u32, BoxedStrategy<Step>)> = vec![
-        (4, (0..slots, proptest::collection::vec(k_strategy(), 0..4)).prop_map(|(slot, comps)| Step::Spawn { slot, marked: true, comps }).boxed()),
+        (if matches!(p, Profile::Related) { 10 } else { 4 }, (0..slots, proptest::collection::vec(k_strategy(), 0..4)).prop_map(|(slot, comps)| Step::Spawn { slot, marked: true, comps }).boxed()),
         (1, (0..slots, proptest::collection::vec(k_strategy(), 0..4)).prop_map(|(slot, comps)| Step::Spawn { slot, marked: false, comps }).boxed()),
         (2, (0..slots).prop_map(|slot| Step::Despawn { slot }).boxed()),
         (2, (0..slots, any::<bool>()).prop_map(|(slot, on)| Step::Marker { slot, on }).boxed()),
@@ -360,6 +361,8 @@ pub fn step_strategy(cfg: &Cfg, p: Profile) -> BoxedStrategy<Step> {
     v.push((w(cfg.refs, 1), (0..slots).prop_map(|slot| Step::DelRef { slot }).boxed()));
     v.push((w(cfg.children, 4), (0..slots, 0..slots).prop_map(|(slot, parent)| Step::SetParent { slot, parent }).boxed()));
     v.push((w(cfg.children, 2), (0..slots).prop_map(|slot| Step::DelParent { slot }).boxed()));
+    v.push((w(cfg.owners, 8), (0..slots, 0..slots).prop_map(|(slot, owner)| Step::SetOwner { slot, owner }).boxed()));
+    v.push((w(cfg.owners, 1), (0..slots).prop_map(|slot| Step::DelOwner { slot }).boxed()));
     v.push((w(cfg.vis != 0, 6), (0..clients, 0..slots, any::<bool>()).prop_map(|(client, slot, visible)| Step::Vis { client, slot, visible }).boxed()));
     v.push((
         w(cfg.vis != 0, if matches!(p, Profile::Vis) { 4 } else { 1 }),
